@@ -9,7 +9,9 @@
 //                       per case: toMatrix33 = toMatrix44 block bitwise; both = product of three elementary axis
 //                       rotations in long double (static orders: letters of the name; rotating orders: the
 //                       decoded bit-fields with the triple reversed); orthonormal, det +1; toQuat vs the
-//                       reference quaternion and through toMatrix33; XYZ vs Matrix44::setEulerAngles;
+//                       reference quaternion and through toMatrix33; XYZ vs Matrix44::setEulerAngles (all 16 entries,
+//                       also with setEulerAngles called on a Matrix44 pre-filled with primes / NaN in every slot:
+//                       bitwise the fresh result); extract() on Euler objects that already hold angles;
 //                       extract(M33) vs extract(M44) bitwise, constructors from matrices, rebuild within a flat
 //                       16 eps; extract(Quat); extractEulerXYZ / extractEulerZYX rebuilt from the definition
 //                       the same 4x4 with a non-zero translation row (affine input) must give numerically equal
